@@ -1015,3 +1015,256 @@ func c20r11(rc *core.RC) {
 		rc.Unknown("decoder/skippers-strings", token.NoPos, "found %d of the six skippers", n)
 	}
 }
+
+// ---- C20.R12 the path builder consumes all of its text or fails ----
+
+// The path text is parsed by mutually recursive methods of PathBuilder that take the rest of the text ([]rune) and
+// return how much of it they consumed. Only build compares that number with the length, and it can do so for one
+// level only; what makes trailing text an error is that every method either fails or consumes everything it was given.
+// That is an inductive invariant visible in the returns: a success return is
+//   - len(buf), or a value v under a condition that says len(buf) <= v (nothing remains), or
+//   - c + n where n is what another builder method reported for buf[k:] and c >= k, or
+//   - the result of a builder method that was handed the same buf.
+// A success return that fits none of these leaves text that nobody examined: `$[0][1]x` would be a valid path.
+func c20r12(rc *core.RC) {
+	p := rc.P
+	pk := p.Pkg("decoder")
+	if pk == nil {
+		rc.Unknown("decoder", token.NoPos, "package not found")
+		return
+	}
+	type builder struct {
+		fd     *ast.FuncDecl
+		bufIdx int
+	}
+	builders := map[*types.Func]builder{}
+	for _, fd := range p.Funcs("decoder") {
+		if fd.Recv == nil || fd.Body == nil {
+			continue
+		}
+		fn, _ := pk.TypesInfo.Defs[fd.Name].(*types.Func)
+		if fn == nil {
+			continue
+		}
+		sig := fn.Type().(*types.Signature)
+		if !strings.HasSuffix(sig.Recv().Type().String(), "decoder.PathBuilder") || sig.Results().Len() != 2 {
+			continue
+		}
+		if b, ok := sig.Results().At(0).Type().(*types.Basic); !ok || b.Kind() != types.Int || sig.Results().At(1).Type().String() != "error" {
+			continue
+		}
+		for i := 0; i < sig.Params().Len(); i++ {
+			if sig.Params().At(i).Type().String() == "[]rune" {
+				builders[fn] = builder{fd, i}
+				break
+			}
+		}
+	}
+	if len(builders) < 6 {
+		rc.Unknown("decoder/path-builders", token.NoPos, "found %d methods of PathBuilder with the shape ([]rune …) (int, error) (confirmed: 6)", len(builders))
+	}
+	for fn, b := range builders {
+		fd := b.fd
+		info := pk.TypesInfo
+		name := p.FuncName(fd)
+		rc.Touch(name)
+		bufVar := fn.Type().(*types.Signature).Params().At(b.bufIdx)
+		reassigned := false
+		ast.Inspect(fd.Body, func(n ast.Node) bool {
+			if as, ok := n.(*ast.AssignStmt); ok {
+				for _, l := range as.Lhs {
+					if core.ObjOf(info, l) == bufVar {
+						reassigned = true
+					}
+				}
+			}
+			return true
+		})
+		le := &core.LinearEval{Info: info, Pkg: pk, Body: fd.Body}
+		lenAtom := "len(" + bufVar.Name() + ")"
+		// the builder call that defines a variable (n, err := b.buildX(buf[k:]))
+		defCall := func(id *ast.Ident) (*ast.CallExpr, bool) {
+			obj := core.ObjOf(info, id)
+			var call *ast.CallExpr
+			ast.Inspect(fd.Body, func(n ast.Node) bool {
+				as, ok := n.(*ast.AssignStmt)
+				if !ok || len(as.Rhs) != 1 || len(as.Lhs) != 2 {
+					return true
+				}
+				if lid, ok := as.Lhs[0].(*ast.Ident); ok && core.ObjOf(info, lid) == obj && info.Defs[lid] != nil {
+					if c, ok := core.Unparen(as.Rhs[0]).(*ast.CallExpr); ok {
+						if _, isB := builders[core.Callee(info, c)]; isB {
+							call = c
+						}
+					}
+				}
+				return true
+			})
+			return call, call != nil
+		}
+		// nothing remains: a condition on the path to n that says len(buf) <= v
+		emptyAt := func(n ast.Node, v core.Linear) bool {
+			var conds []condNode
+			conds = append(conds, condChainNodes(fd, n)...)
+			path := core.PathTo(fd.Body, n)
+			for i, pn := range path {
+				var list []ast.Stmt
+				switch x := pn.(type) {
+				case *ast.BlockStmt:
+					list = x.List
+				case *ast.CaseClause:
+					list = x.Body
+				default:
+					continue
+				}
+				if i+1 >= len(path) {
+					continue
+				}
+				for _, st := range list {
+					if ast.Node(st) == path[i+1] {
+						break
+					}
+					ifs, ok := st.(*ast.IfStmt)
+					if !ok || ifs.Else != nil || ifs.Init != nil || len(ifs.Body.List) == 0 {
+						continue
+					}
+					if _, isRet := ifs.Body.List[len(ifs.Body.List)-1].(*ast.ReturnStmt); !isRet {
+						continue
+					}
+					cond, flip := stripNot(ifs.Cond)
+					conds = append(conds, condNode{cond, flip})
+				}
+			}
+			for _, c := range conds {
+				be, ok := core.Unparen(c.cond).(*ast.BinaryExpr)
+				if !ok {
+					continue
+				}
+				l, r := le.Eval(be.X), le.Eval(be.Y)
+				if !l.OK || !r.OK {
+					continue
+				}
+				// d = (left - right); with len(buf) on one side: bring to the form len(buf) OP bound
+				op := be.Op
+				if !c.pos {
+					switch op {
+					case token.GTR:
+						op = token.LEQ
+					case token.GEQ:
+						op = token.LSS
+					case token.LSS:
+						op = token.GEQ
+					case token.LEQ:
+						op = token.GTR
+					case token.EQL:
+						op = token.NEQ
+					case token.NEQ:
+						op = token.EQL
+					default:
+						continue
+					}
+				}
+				var bound core.Linear
+				switch {
+				case l.Terms[lenAtom] == 1 && len(nonzeroTerms(l)) == 1 && l.Const == 0:
+					// len(buf) OP r
+					switch op {
+					case token.LEQ, token.EQL:
+						bound = r
+					case token.LSS:
+						bound = r.Sub(core.LinConst(1))
+					default:
+						continue
+					}
+				case r.Terms[lenAtom] == 1 && len(nonzeroTerms(r)) == 1 && r.Const == 0:
+					// l OP len(buf)
+					switch op {
+					case token.GEQ, token.EQL:
+						bound = l
+					case token.GTR:
+						bound = l.Sub(core.LinConst(1))
+					default:
+						continue
+					}
+				default:
+					continue
+				}
+				// len(buf) <= bound and bound <= v
+				if d := v.Sub(bound); d.OK && len(nonzeroTerms(d)) == 0 && d.Const >= 0 {
+					return true
+				}
+			}
+			return false
+		}
+		nret := 0
+		ast.Inspect(fd.Body, func(n ast.Node) bool {
+			if _, isLit := n.(*ast.FuncLit); isLit {
+				return false
+			}
+			ret, ok := n.(*ast.ReturnStmt)
+			if !ok {
+				return true
+			}
+			nret++
+			key := fmt.Sprintf("%s/success-return#%d consumes-all-or-delegates", name, nret)
+			if reassigned {
+				rc.Unknown(key, ret.Pos(), "the text parameter %s is reassigned: its length is no longer the length of what was handed in", bufVar.Name())
+				return true
+			}
+			switch len(ret.Results) {
+			case 1:
+				c, ok := core.Unparen(ret.Results[0]).(*ast.CallExpr)
+				callee, isB := builders[core.Callee(info, c)]
+				if !ok || !isB {
+					rc.Unknown(key, ret.Pos(), "a single-expression return that is not a call of a builder method")
+					return true
+				}
+				arg := core.Unparen(c.Args[callee.bufIdx])
+				rc.Check(core.ObjOf(info, arg) == bufVar, key, ret.Pos(), "the result of %s is returned as this method's own count: it has to be handed the same text (%s), not a part of it", core.CalleeName(info, c), bufVar.Name())
+			case 2:
+				if tv, ok := info.Types[ret.Results[1]]; !ok || !tv.IsNil() {
+					return true // an error return
+				}
+				v := le.Eval(ret.Results[0])
+				if !v.OK {
+					rc.Unknown(key, ret.Pos(), "the count returned (%s) is not a linear form", core.Src(p.Fset, ret.Results[0]))
+					return true
+				}
+				// the share a builder call reported
+				var viaCall *ast.CallExpr
+				var viaName string
+				ast.Inspect(ret.Results[0], func(m ast.Node) bool {
+					if id, ok := m.(*ast.Ident); ok {
+						if c, ok := defCall(id); ok {
+							viaCall, viaName = c, id.Name
+						}
+					}
+					return true
+				})
+				switch {
+				case viaCall != nil:
+					callee := builders[core.Callee(info, viaCall)]
+					arg := core.Unparen(viaCall.Args[callee.bufIdx])
+					k := core.LinConst(0)
+					if se, ok := arg.(*ast.SliceExpr); ok && se.High == nil && se.Max == nil && core.ObjOf(info, se.X) == bufVar {
+						if se.Low != nil {
+							k = le.Eval(se.Low)
+						}
+					} else if core.ObjOf(info, arg) != bufVar {
+						rc.Unknown(key, ret.Pos(), "the builder call behind %s is not handed %s or %s[k:]", viaName, bufVar.Name(), bufVar.Name())
+						return true
+					}
+					rest := v.Sub(core.Linear{Terms: map[string]int64{viaName: 1}, OK: true})
+					d := rest.Sub(k)
+					rc.Check(d.OK && len(nonzeroTerms(d)) == 0 && d.Const >= 0, key, ret.Pos(), "%s reports all of %s[%s:] consumed; this method returns %s for the whole of %s: the part in front has to count at least %s", core.CalleeName(info, viaCall), bufVar.Name(), k, v, bufVar.Name(), k)
+				case v.Terms[lenAtom] == 1 && len(nonzeroTerms(v)) == 1 && v.Const >= 0:
+					rc.OK(key, ret.Pos(), "returns len(%s): the scan reached the end of the text", bufVar.Name())
+				default:
+					rc.Check(emptyAt(ret, v), key, ret.Pos(), "success with the count %s: a condition on the way to this return has to say that nothing of %s remains behind it (len(%s) <= %s); text behind the count that nobody examined is accepted as part of a valid path", v, bufVar.Name(), bufVar.Name(), v)
+				}
+			}
+			return true
+		})
+	}
+}
+
